@@ -1,7 +1,7 @@
 #!/bin/bash
 # lib/seedmatrix.sh [seed dirs...] : runs every seeded change (default: all of seeded/) through the quick check of
 # its own property with lib/seedtest.sh and prints one line per seed: DETECTED / MISSED.
-# S-C14 and S-C04g (neutralised by repository fixes) and S-C02k, S-C10k, S-C05s, S-C06s (not detected, see their meta.json) are expected to be MISSED.
+# S-C14 and S-C04g (neutralised by repository fixes) and S-C02k, S-C10k, S-C06s (not detected, see their meta.json) are expected to be MISSED.
 # S-C20h (a race between two goroutines, seen through the values it corrupts) is detected in most runs, not in all (see its meta.json).
 cd "$(dirname "$(dirname "$(readlink -f "$0")")")" || exit 2
 DIRS=${*:-seeded/*}
